@@ -363,6 +363,11 @@ void MEDDLY::pregen_relation::finalize(splittingOption split)
       events[k].set(0);
     }
     splitMxd(split);
+    // Splitting moves diagonals down; a level's relation can become
+    // the identity relation (a terminal), which adds no states.
+    for (unsigned k=K; k; k--) {
+      if (events[k].getNode() && 0 == events[k].getLevel()) events[k].set(0);
+    }
     if (split != None && split != MonolithicSplit) {
 #ifdef DEBUG_FINALIZE_SPLIT
       // Union the elements, and then re-run.
